@@ -202,3 +202,87 @@ def dispatch_specs(n):
             out["ppt_distinguishability/%s/%s" % (pd, "probs" if given else "uniform")] = (PPT, "ppt_distinguishability", params, ["has_same_dimension(vectors)"], spec,
                 "ppt_distinguishability(primal_dual=%r) == _min_error_%s(vectors, subsystems, dimensions, probs or the uniform prior, solver, strategy)" % (pd, pd), ["_min_error_primal", "_min_error_dual"])
     return out
+
+
+# ---------------------------------------------------------------------------------------------
+# cvxpy builders: QuantumHedging (four programs) and optimal_clone's primal_problem / dual_problem
+# ---------------------------------------------------------------------------------------------
+QH = "toqito/nonlocal_games/quantum_hedging.py"
+OC = "toqito/state_opt/optimal_clone.py"
+
+
+def cvar(k, opts, *shape):
+    return uf("cvxpy.Variable#%d[%s]" % (k, opts), Arr, *[lift(x) for x in shape])
+
+
+def ident(fn, n):
+    return uf("%s[%d]" % (fn, n), Arr)
+
+
+def dagger(a):
+    return uf("transpose", Arr, uf("conj", Arr, a))
+
+
+def mat(a, b):
+    return uf("matmul", Arr, a, b)
+
+
+def ptrace(x, sys, dim):
+    return tq("partial_trace", Arr, consts=["dim=%r" % (list(dim),), "sys=%r" % (list(sys),)], input_mat=x)
+
+
+def cvx_specs(reps):
+    """{key: (file, qualname, params, requires, spec, text)} for `reps` repetitions (enumerated)"""
+    out = {}
+    n = reps
+    sys_h = list(range(0, 2 * n - 1, 2))
+    dim_h = [2] * (2 * n)
+    PH = [("self._q_a", "arr"), ("self._num_reps", n), ("self._sys", sys_h), ("self._dim", dim_h), ("self._pperm", "arr")]
+
+    def X():
+        return cvar(0, "hermitian=True", 4**n, 4**n)
+
+    def Y():
+        return cvar(0, "hermitian=True", 2**n, 2**n)
+
+    def permuted(e):
+        K = uf("kron", Arr, ident("np.eye", 2**n), Y())
+        P = e["self._pperm"]
+        if n == 1:
+            return uf("multiply", Arr, uf("multiply", Arr, P, K), dagger(P))
+        return mat(mat(P, K), dagger(P))
+
+    for which, direction in (("max", "max"), ("min", "min")):
+        out["hedge.%s_primal" % which] = (QH, "QuantumHedging.%s_prob_outcome_a_primal" % which, PH, [], lambda e, direction=direction: dict(
+            direction=direction, objective=ip(e["self._q_a"], X()), objective_text="<Q, X>", scalar_result=True, solver_param=False,
+            constraints=[Cons("eq", ptrace(X(), sys_h, dim_h), ident("np.identity", 2**n)), psd(X())], ordered=False,
+            constraint_text=["Tr_{even subsystems} X == I", "X >= 0"]),
+            "QuantumHedging.%s_prob_outcome_a_primal (n = %d): %s <Q, X> s.t. partial_trace(X, %s, %s) = I, X >= 0" % (which, n, direction, sys_h, dim_h))
+    out["hedge.max_dual"] = (QH, "QuantumHedging.max_prob_outcome_a_dual", PH, [], lambda e: dict(
+        direction="min", objective=tr(Y()), objective_text="Tr Y", scalar_result=True, solver_param=False,
+        constraints=[Cons("psd", permuted(e), e["self._q_a"])], ordered=True, constraint_text=["P (I (x) Y) P^* >= Q"]),
+        "QuantumHedging.max_prob_outcome_a_dual (n = %d): min Tr Y s.t. P (I (x) Y) P^* >= Q" % n)
+    out["hedge.min_dual"] = (QH, "QuantumHedging.min_prob_outcome_a_dual", PH, [], lambda e: dict(
+        direction="max", objective=tr(Y()), objective_text="Tr Y", scalar_result=True, solver_param=False,
+        constraints=[Cons("psd", e["self._q_a"], permuted(e))], ordered=True, constraint_text=["P (I (x) Y) P^* <= Q"]),
+        "QuantumHedging.min_prob_outcome_a_dual (n = %d): max Tr Y s.t. P (I (x) Y) P^* <= Q" % n)
+    # optimal cloning: three registers per repetition, the two clone registers are traced out
+    sys_c = [s_ - 1 for s_ in range(1, 3 * n) if s_ % 3 != 0]
+    dim_c = [2] * (3 * n)
+    PC = [("q_a", "arr"), ("pperm", "arr"), ("num_reps", n)]
+
+    def Xc():
+        return cvar(0, "hermitian=True", 8**n, 8**n)
+
+    out["clone.primal"] = (OC, "primal_problem", PC, [], lambda e: dict(
+        direction="max", objective=ip(e["q_a"], Xc()) if n == 1 else tr(mat(mat(mat(e["pperm"], dagger(e["q_a"])), dagger(e["pperm"])), Xc())),
+        objective_text="<Q, X>" if n == 1 else "Re Tr(P Q^* P^* X)", scalar_result=True, solver_param=False,
+        constraints=[Cons("eq", ptrace(Xc(), sys_c, dim_c), ident("np.identity", 2**n)), psd(Xc())], ordered=False,
+        constraint_text=["Tr_{clone registers} X == I", "X >= 0"]),
+        "optimal_clone primal (n = %d): max <P Q P^*, X> s.t. partial_trace(X, %s, %s) = I, X >= 0" % (n, sys_c, dim_c))
+    out["clone.dual"] = (OC, "dual_problem", PC, [], lambda e: dict(
+        direction="min", objective=tr(Y()), objective_text="Tr Y", scalar_result=True, solver_param=False,
+        constraints=[Cons("psd", uf("kron", Arr, uf("kron", Arr, ident("np.eye", 2**n), ident("np.eye", 2**n)), Y()), e["q_a"] if n == 1 else mat(mat(e["pperm"], e["q_a"]), dagger(e["pperm"])))], ordered=True,
+        constraint_text=["I (x) I (x) Y >= P Q P^*"]),
+        "optimal_clone dual (n = %d): min Tr Y s.t. I (x) I (x) Y >= P Q P^*" % n)
+    return out
